@@ -323,6 +323,64 @@ def grow(obj):
         return False
 
 
+def rename(obj):
+    """Replace one node by a node with a *new label* in place (same number of nodes and edges, same shape, another node
+    set): the last node is removed and a fresh label takes over its memberships.  Fourth stage of the evaluation
+    protocol: anything remembered about this object per node label - positions, index maps - under a key that only
+    counts nodes is now stale.  Returns the new label or None."""
+    cls = type(obj).__name__
+    try:
+        nodes = list(obj.nodes)
+        if not nodes:
+            return None
+        old = nodes[-1]
+        if all(isinstance(n, int) and not isinstance(n, bool) for n in nodes):
+            new = max(nodes) + 7
+        elif all(isinstance(n, str) for n in nodes):
+            new = "zz%d" % len(nodes)
+        else:
+            new = ("renamed", len(nodes))
+        attrs = dict(obj.nodes[old])
+        if cls == "SimplicialComplex":
+            mem = obj.edges.members(dtype=dict)
+            sets = [frozenset(m) for m in mem.values()]
+            tops = [(e, m) for e, m in mem.items() if old in m and not any(frozenset(m) < o for o in sets)]
+            obj.remove_node(old)
+            obj.add_node(new, **attrs)
+            for e, m in tops:
+                obj.add_simplex([new if x == old else x for x in sorted(m, key=repr)])
+            return new
+        if cls == "DiHypergraph":
+            i, o = obj.nodes.dimemberships(old)
+            i, o = list(i), list(o)
+            obj.remove_node(old, remove_empty=False)
+            obj.add_node(new, **attrs)
+            for e in o:
+                obj.add_node_to_edge(e, new, "in")
+            for e in i:
+                obj.add_node_to_edge(e, new, "out")
+            return new
+        es = list(obj.nodes.memberships(old))
+        obj.remove_node(old, remove_empty=False)
+        obj.add_node(new, **attrs)
+        for e in es:
+            obj.add_node_to_edge(e, new)
+        return new
+    except Exception:  # noqa: BLE001
+        return None
+
+
+def wide():
+    """A few networks with more than ten nodes and more than ten edges: positions 10, 11, ... exist, so anything that
+    orders or keys nodes / edges by the *text* of a number ('10' < '2') or assumes one-digit positions goes wrong here and
+    nowhere in the small families.  Edges join low positions with positions >= 10 in both orders."""
+    pairs = [[0, 1], [2, 10], [3, 11], [10, 11], [1, 2, 10], [4, 5], [5, 6], [6, 7], [7, 8], [8, 9], [9, 11], [0, 11, 3]]
+    a = H(pairs, nodes=list(range(12)))
+    b = relabel(a, node_map={i: "n%d" % i for i in range(12)}, edge_ids=["e%d" % i for i in range(len(pairs))])
+    c = relabel(a, node_map={i: 100 - 7 * i for i in range(12)}, edge_ids=[50 - 3 * i for i in range(len(pairs))], reverse_nodes=True)
+    return [a, b, c]
+
+
 def exotic_label_maps(nodes):
     """Node relabellings to label *types* other than int / str: integer-valued floats (equal to ints as dict keys),
     proper floats, tuples, and a mix of int, float, str and tuple."""
